@@ -653,6 +653,11 @@ func ResetPageTable() {
 //go:norace
 func InRWXWindow() bool { return anyRWX > 0 }
 
+// FaultsFired returns the number of faults injected so far in the current run.
+//
+//go:norace
+func FaultsFired() int { return nFaults }
+
 // CurTask returns the id of the running task (-1 outside a run).
 //
 //go:norace
